@@ -172,55 +172,15 @@ theorem C18_drift_bound (c : F64) (d : Int) (hf : isFinite c = true)
   · subst hd0
     simp [toDuration, durationSeconds, ofInt_zero, hC, div, add, mul, toInt64]
     rw [Rat.sub_self, Rat.abs_zero, Rat.div_def, Rat.zero_mul]; grind
-  · -- integer split
-    obtain ⟨hsplit, hpos, hneg, hns⟩ := tdiv_tmod_facts d
-    unfold toDuration durationSeconds
-    generalize Int.tdiv d 1000000000 = sec at *
-    generalize Int.tmod d 1000000000 = ns at *
-    have hsec : sec.natAbs ≤ 2 ^ 53 := by omega
-    have hnsb : ns.natAbs ≤ 2 ^ 53 := by omega
-    have hmax : (36893488147419103232 : Rat) ≤ maxFin := by
-      refine Rat.le_trans ?_ (pow2_le_maxFin (K := 65) (by decide))
-      rw [show pow2 65 = 36893488147419103232 by decide]; exact Rat.le_refl
-    -- rational views
-    have hη0 := Rat.le_of_lt (pow2_pos (-1075))
+  · have hη0 := Rat.le_of_lt (pow2_pos (-1075))
     have hη := eta_le'
     obtain ⟨hdl, hdu⟩ := intCast_bounds hd
     simp only [Int.cast_ofNat_Int, Nat.reducePow, Rat.intCast_ofNat] at hdl hdu
-    have hD : (d : Rat) / 1000000000 = (sec : Rat) + (ns : Rat) / 1000000000 := by
-      have : (d : Rat) = ((sec * 1000000000 + ns : Int) : Rat) := by rw [← hsplit]
-      rw [this, Rat.intCast_add, Rat.intCast_mul]; simp only [Rat.intCast_ofNat]; grind
-    have hposR : 0 ≤ (d : Rat) / 1000000000 →
-        0 ≤ (ns : Rat) / 1000000000 ∧ (ns : Rat) / 1000000000 ≤ (d : Rat) / 1000000000 := by
-      intro h
-      have h' : (0 : Int) ≤ d := by
-        have : ((0 : Int) : Rat) ≤ (d : Rat) := by simp only [Rat.intCast_zero]; grind
-        exact Rat.intCast_le_intCast.1 this
-      obtain ⟨a, b⟩ := hpos h'
-      have a' : ((0 : Int) : Rat) ≤ (ns : Rat) := Rat.intCast_le_intCast.2 a
-      have b' : (ns : Rat) ≤ (d : Rat) := Rat.intCast_le_intCast.2 b
-      simp only [Rat.intCast_zero] at a'
-      grind
-    have hnegR : (d : Rat) / 1000000000 ≤ 0 →
-        (d : Rat) / 1000000000 ≤ (ns : Rat) / 1000000000 ∧ (ns : Rat) / 1000000000 ≤ 0 := by
-      intro h
-      have h' : d ≤ (0 : Int) := by
-        have : (d : Rat) ≤ ((0 : Int) : Rat) := by simp only [Rat.intCast_zero]; grind
-        exact Rat.intCast_le_intCast.1 this
-      obtain ⟨a, b⟩ := hneg h'
-      have a' : (d : Rat) ≤ (ns : Rat) := Rat.intCast_le_intCast.2 a
-      have b' : (ns : Rat) ≤ ((0 : Int) : Rat) := Rat.intCast_le_intCast.2 b
-      simp only [Rat.intCast_zero] at b'
-      grind
-    have hDb : ((d : Rat) / 1000000000).abs ≤ 17179869184 := by rw [abs_le_iff]; grind
-    -- the four roundings as rationals
-    have e1 := rnd_err_gen ((ns : Rat) / 1000000000)
-    have e2 := rnd_err_gen ((sec : Rat) + rnd ((ns : Rat) / 1000000000))
-    have e3 := rnd_err_gen (rnd ((sec : Rat) + rnd ((ns : Rat) / 1000000000)) * v)
-    have e4 := rnd_err_gen
-      (rnd (rnd ((sec : Rat) + rnd ((ns : Rat) / 1000000000)) * v) * 1000000000)
-    rw [pow2_53_lit] at e1 e2 e3 e4
-    obtain ⟨l1, bS0, bS, bn⟩ := drift_L1 hη0 hη hD hDb hposR hnegR e1 e2
+    -- Seconds(): finite, value `secondsVal d`, relative error 3·2^-53
+    obtain ⟨fS, _, vS⟩ := durationSeconds_val hd
+    have l1 := secondsVal_err d
+    have bS := secondsVal_abs_le hd
+    -- the one non-linear step: scale the error by the drift
     have l2 := drift_L2 (κ := 3 / 9007199254740992) hη0 h2 l1
     have hE : pow2 (-900) ≤ (v * (d : Rat)).abs := by
       rw [abs_mul]
@@ -229,33 +189,22 @@ theorem C18_drift_bound (c : F64) (d : Int) (hf : isFinite c = true)
     have hEb : (v * (d : Rat)).abs ≤ 4611686018427387904 := by
       have := abs_mul_le h2 (abs_le_iff.2 ⟨hdl, hdu⟩); grind
     have hxE : v * (d : Rat) = (d : Rat) / 1000000000 * v * 1000000000 := by grind
+    -- the two remaining roundings
+    have e3 := rnd_err_gen (secondsVal d * v)
+    have e4 := rnd_err_gen (rnd (secondsVal d * v) * 1000000000)
+    rw [pow2_53_lit] at e3 e4
     have l3 := drift_L3 hη0 hxE (drift_eta hE) l2 e3 e4
-    have by_ : (rnd ((sec : Rat) + rnd ((ns : Rat) / 1000000000)) * v).abs ≤ 17179869184 := by
-      have := abs_mul_le bS h2; grind
-    have bM := drift_L3b hη0 hη by_ e3
+    have bM := drift_L3b hη (by rw [← hxE]; exact hEb) l2 e3
+    have hmax : (9223372036854774784 : Rat) ≤ maxFin := by
+      refine Rat.le_trans ?_ (pow2_le_maxFin (K := 63) (by decide)); rw [pow2_63_lit]; grind
     -- the float operations
-    obtain ⟨fQ, vQ⟩ := toRat_div (isFinite_ofInt_exact hnsb) (isFinite_ofInt_exact (i := 1000000000) (by decide))
-      (by rw [hC]; simp [toRat_fin]) (by
-        rw [toRat_ofInt_exact hnsb, hC]; simp only [toRat_fin]
-        exact Rat.le_trans bn (Rat.le_trans (by grind) hmax))
-    rw [toRat_ofInt_exact hnsb, hC] at vQ; simp only [toRat_fin] at vQ
-    obtain ⟨fS, vS⟩ := toRat_add (WF_ofInt sec) (WF_div _ _) (isFinite_ofInt_exact hsec) fQ (by
-      rw [toRat_ofInt_exact hsec, hC, vQ]; exact Rat.le_trans bS0 (Rat.le_trans (by grind) hmax))
-    rw [toRat_ofInt_exact hsec, hC, vQ] at vS
     obtain ⟨fM, vM⟩ := toRat_mul fS (show isFinite (.fin v) = true from rfl) (by
-      rw [hC, vS]; simp only [toRat_fin]; exact Rat.le_trans by_ (Rat.le_trans (by grind) hmax))
-    rw [hC, vS] at vM; simp only [toRat_fin] at vM
-    obtain ⟨fR, vR⟩ := toRat_mul fM (show isFinite (.fin 1000000000) = true from rfl) (by
-      rw [hC, vM]; simp only [toRat_fin]; exact Rat.le_trans bM hmax)
-    rw [hC, vM] at vR; simp only [toRat_fin] at vR
-    rw [hC] at fR ⊢
-    generalize rnd (rnd (rnd ((sec : Rat) + rnd ((ns : Rat) / 1000000000)) * v) * 1000000000) = Rv at *
-    have ht := trunc_err Rv
-    rw [pow2_50_lit]
-    obtain ⟨fin_, bR⟩ := drift_final hEb l3 ht
-    rw [abs_le_iff] at bR
-    rw [toInt64_eq_trunc fR (by rw [vR, pow2_63_lit]; grind) (by rw [vR, pow2_63_lit]; grind), vR]
-    exact fin_
+      rw [vS, toRat_fin]
+      have := abs_mul_le bS h2
+      exact Rat.le_trans this (Rat.le_trans (by grind) hmax))
+    rw [vS, toRat_fin] at vM
+    rw [toDuration_val fM (by rw [vM]; exact bM), vM, pow2_50_lit]
+    exact drift_final l3 (trunc_err _)
 
 /-- the hypotheses are met by, e.g., a drift of `2^-20` (about 1 ppm) -/
 example : pow2 (-900) ≤ (pow2 (-20)).abs ∧ (pow2 (-20)).abs ≤ 1 / 2 := by
